@@ -466,7 +466,7 @@ class simplify_chained_calls(FuncADLNodeTransformer):
         if n is None:
             return ast.Subscript(v, s, ast.Load())  # type: ignore
         assert isinstance(n, int), "Programming error: index is not an integer in tuple subscript"
-        if n >= len(v.elts):
+        if n >= len(v.elts) or n < -len(v.elts):
             raise FuncADLIndexError(
                 f"Attempt to access the {n}th element of a tuple only"
                 f" {len(v.elts)} values long."
@@ -483,7 +483,7 @@ class simplify_chained_calls(FuncADLNodeTransformer):
         n = s.value
         if n is None:
             return ast.Subscript(v, s, ast.Load())  # type: ignore
-        if n >= len(v.elts):
+        if n >= len(v.elts) or n < -len(v.elts):
             raise FuncADLIndexError(
                 f"Attempt to access the {n}th element of a tuple"
                 f" only {len(v.elts)} values long."
@@ -497,16 +497,16 @@ class simplify_chained_calls(FuncADLNodeTransformer):
         """
         sub = s.value
         assert isinstance(sub, (str, int))
-        return self.visit_Subscript_Dict_with_value(v, sub)
+        r = self.visit_Subscript_Dict_with_value(v, sub)
+        return r if r is not None else ast.Subscript(v, s, ast.Load())
 
     def visit_Subscript_Dict_with_value(self, v: ast.Dict, s: Union[str, int]):
-        "Do the lookup for the dict"
+        "Do the lookup for the dict. Returns None if the dict does not define the key."
         for index, value in enumerate(v.keys):
-            assert isinstance(value, ast.Constant)
-            if value.value == s:
+            if isinstance(value, ast.Constant) and value.value == s:
                 return copy.deepcopy(v.values[index])
 
-        return ast.Subscript(v, s, ast.Load())  # type: ignore
+        return None
 
     def visit_Subscript_Of_First(self, first: ast.expr, s):
         """
@@ -535,11 +535,15 @@ class simplify_chained_calls(FuncADLNodeTransformer):
         """
         v = self.visit(node.value)
         s = self.visit(node.slice)
-        if type(v) is ast.Tuple:
+        # A literal can only be taken apart here if the selector is a constant - anything
+        # else (a variable, a negative index written as -1, a slice) is left as it is.
+        is_index = isinstance(s, ast.Constant) and type(s.value) is int
+        is_key = isinstance(s, ast.Constant) and type(s.value) in (int, str)
+        if type(v) is ast.Tuple and is_index:
             return self.visit_Subscript_Tuple(v, s)
-        if type(v) is ast.List:
+        if type(v) is ast.List and is_index:
             return self.visit_Subscript_List(v, s)
-        if type(v) is ast.Dict:
+        if type(v) is ast.Dict and is_key:
             return self.visit_Subscript_Dict(v, s)
 
         if is_call_of(v, "First"):
@@ -580,6 +584,8 @@ class simplify_chained_calls(FuncADLNodeTransformer):
 
         visited_value = self.visit(node.value)
         if isinstance(visited_value, ast.Dict):
-            return self.visit_Subscript_Dict_with_value(visited_value, node.attr)
+            r = self.visit_Subscript_Dict_with_value(visited_value, node.attr)
+            if r is not None:
+                return r
 
         return ast.Attribute(value=visited_value, attr=node.attr, ctx=ast.Load())
